@@ -5,7 +5,7 @@ package main
 
 import "fmt"
 
-var allPopKinds = []string{"tampered", "unsigned", "foreign", "other-step-key", "earlier-step-key", "earlier-step-key", "forged-keyid", "extra-sigs", "dup-infix", "keyid-variant", "keyid-variant", "sublayout-unauthorized", "wrong-name-len", "garbage", "bad-sig-encoding", "corrupt-sig", "cert", "cert", "cert"}
+var allPopKinds = []string{"tampered", "replayed-sig", "replayed-sig", "unsigned", "foreign", "other-step-key", "earlier-step-key", "earlier-step-key", "forged-keyid", "extra-sigs", "dup-infix", "keyid-variant", "keyid-variant", "sublayout-unauthorized", "wrong-name-len", "garbage", "bad-sig-encoding", "corrupt-sig", "cert", "cert", "cert"}
 
 var alterKinds = []string{"mutate-field", "mutate-field", "mutate-field", "drop-sig", "reorder-sigs", "dup-sig", "corrupt-sig", "swap-keyids", "foreign-verifier", "empty-keyset", "wrong-key", "verifier-subset", "signed-by-others-only", "verifier-keytype", "verifier-scheme", "payload-case-dup"}
 
@@ -79,7 +79,7 @@ func init() {
 			}
 			cfg.NSteps = 1 + rng.Intn(3)
 			return cfg
-		}, "per step: threshold 0-3, 1-3 authorized keys, `threshold` honest links (one too few in a quarter of the steps) plus 0-3 extra files drawn from: tampered, unsigned, foreign key, key of another step, key of an EARLIER step of the same layout (listed and defined there), forged key id, extra signatures, duplicate under another infix, an already counted functionary again under a letter-case variant of its key id, wrong name length, garbage, undecodable signature, corrupted signature, certificate-signed (good / expired / foreign-root / missing-intermediate chains, forged first key id), steps authorized by ONE certificate constraint alone with threshold 2-3 and that many (or one fewer) distinct certificate holders; both wrappers; compared: verdict and summary. Class = (population kinds, verdict).")
+		}, "per step: threshold 0-3, 1-3 authorized keys, `threshold` honest links (one too few in a quarter of the steps) plus 0-3 extra files drawn from: tampered, unsigned, foreign key, key of another step, key of an EARLIER step of the same layout (listed and defined there), content for this step under the signature the same functionary made for an earlier step, forged key id, extra signatures, duplicate under another infix, an already counted functionary again under a letter-case variant of its key id, wrong name length, garbage, undecodable signature, corrupted signature, certificate-signed (good / expired / foreign-root / missing-intermediate chains, forged first key id), steps authorized by ONE certificate constraint alone with threshold 2-3 and that many (or one fewer) distinct certificate holders; both wrappers; compared: verdict and summary. Class = (population kinds, verdict).")
 	}
 	props["C05"] = func(r *Runner, tier string, rng *Rng) {
 		runChains(r, rng, tierN(tier, 250, 6000), func(i int) *ChainCfg {
@@ -92,6 +92,13 @@ func init() {
 			if rng.Chance(25) {
 				cfg.Depth = 1
 				cfg.TwinSubPct = 70
+			} else if rng.Chance(25) {
+				// flawless multi-step chains whose last step often reports no products: the rules of
+				// every step are evaluated against that step's own agreed set
+				cfg.CleanSteps, cfg.Differ, cfg.Entry = true, false, "plain"
+				cfg.NSteps = 2 + rng.Intn(2)
+				cfg.EmptyLastPct = 60
+				cfg.PopKinds, cfg.ExtraPerStep = nil, 0
 			}
 			cfg.OddSummaryPct = 25
 			if rng.Chance(40) {
